@@ -25,10 +25,18 @@ func TestSweep(t *testing.T) {
 			for _, sh := range [][4]int{{2, 2, 0, 0}, {3, 1, 1, 2}, {1, 3, 2, 0}} {
 				for _, e := range convtab.Entries {
 					Oracle.One(t, env, rec, "sweep", &Case{Entry: "conv", S: e.S.Name, D: e.D.Name, C1: c1, C2: c2, F1: sh[0], F2: sh[1], A: sh[2], Spare: sh[3]})
+					Oracle.One(t, env, rec, "sweep", &Case{Entry: "conv", S: e.S.Name, D: e.D.Name, C1: c1, C2: c2, F1: sh[0], F2: sh[1], A: sh[2], Spare: 2, P1: c1 - 1, P2: (c2 - 1) / 2})
 				}
 				for _, tn := range names {
 					Oracle.One(t, env, rec, "sweep", &Case{Entry: "append", S: tn, C1: c1, C2: c2, F1: sh[0], F2: sh[1], A: sh[2], Spare: sh[3]})
 					Oracle.One(t, env, rec, "sweep", &Case{Entry: "append", S: tn, C1: c1, C2: c2, F1: sh[0], F2: sh[1], A: sh[2], Spare: 40})
+					for p1 := 0; p1 < c1; p1++ { // operands ending in a partial frame
+						for p2 := 0; p2 < c2; p2++ {
+							if p1+p2 > 0 {
+								Oracle.One(t, env, rec, "sweep", &Case{Entry: "append", S: tn, C1: c1, C2: c2, F1: sh[0], F2: sh[1], A: sh[2], Spare: 2, P1: p1, P2: p2})
+							}
+						}
+					}
 				}
 			}
 		}
